@@ -23,12 +23,13 @@ SCHEMAS = {
         type User implements Node & Named { id: ID! name: String @deprecated(reason: "old") role: Role created: DateTime
           friends(first: Int = 10, after: String = null, filter: Filter = {role: ADMIN, tags: ["a", "b"], nested: {depth: 1.5e300}}): [User!]! }
         "Summary line\\n  - item one (indented)\\n    - nested item\\n  - item two"
-        type Bot implements Node { id: ID! }
+        type Bot implements Node { id: ID! legacy: String @deprecated lists: [[Int!]]! opt: [Int!] req: [Int]! args(a: [Int!], b: [Int]!, c: [[ID!]!]): Int }
         "  leading and trailing blanks  "
         type Zed implements Named & Node { id: ID! name: String "  indented field description\\n    second line" z: Int }
         union Reversed = Zed | User | Bot
         union Actor = User | Bot
-        enum Role { ADMIN @deprecated(reason: "no") USER }
+        enum Role { ADMIN @deprecated(reason: "no") USER OLD @deprecated }
+        input Wrappers { a: [Int!] b: [Int]! c: [[String!]]! d: [[ID]!] old: Int @deprecated }
         input Nested { depth: Float = 0.5 note: String = "quote\\"d" }
         input Filter { role: Role = USER tags: [String!] = [] nested: Nested limit: Int = null flag: Boolean = false }
         type RootQ { node(id: ID!): Node actors: [Actor] }
